@@ -329,6 +329,21 @@ def run(prog: Program, res: Result) -> None:
                     what=what,
                 )
     res.floor("C17.R1b", "top-level token constructions", n_tok, 6)
+    # the markup list is append-only and its tokens are never touched again
+    n_mk = 0
+    for name, f in sorted(lexer.methods.items()):
+        for a in ast.walk(f.node):
+            if _is_self_attr(a, "markup"):
+                par = mod.parent(a)
+                n_mk += 1
+                ok = isinstance(par, ast.Attribute) and par.attr == "append" and isinstance(mod.parent(par), ast.Call) and mod.parent(par).func is par
+                ok = ok or (name == "__init__" and isinstance(par, (ast.Assign, ast.AnnAssign)))
+                what = f"Lexer.{name}: self.markup used only as self.markup.append(<new token>)"
+                if ok:
+                    res.ok("C17.R1b", f"{rel}:{a.lineno} Lexer.{name}", what, "append-only")
+                else:
+                    res.fail("C17.R1b", file=rel, line=a.lineno, qualname=f"Lexer.{name}", construct=f"self.markup used as {norm(par, 50)}", message="an already emitted top-level token is read back / modified / removed: its span no longer describes the text it was scanned from (tokens stop tiling)", what=what)
+    res.floor("C17.R1b", "uses of self.markup", n_mk, 8)
     # markup_start assignments
     n_ms = 0
     for name, f in sorted(lm.methods.items()):
